@@ -92,6 +92,11 @@ CLAIMED["C16"] = (
     COMMON_TRUST + " Not decided here, by the nature of the technique: goroutine interleavings, termination, Stop/cancellation timing, the back-off's real-time behaviour and data races (the per-unit proofs assume that state shared between goroutines is only what the contracts name: the Fetcher's client field never changes, captured variables are assigned only before the literal is created — both checked syntactically). Assumed: the log client's replies carry between one and the requested number of entries and tree sizes fit an int64; backoff.Retry returns nil exactly when the last call of the function it was given returned nil; a matcher may modify the leaf it is shown (the callback receives what was decoded after matching).",
 )
 
+CLAIMED["C20"] = (
+    "Deductive proof of the sequential core of the migration: a destination leaf is the source entry's leaf_input and extra_data verbatim under the source index with the identity hash the configured function gives (SHA-256 of the certificate bytes, or of the little-endian index), and only an undecodable leaf is refused (unparsable certificates are copied); a batch becomes one AddSequencedLeaves request for this tree whose k-th leaf is the k-th entry under index Start+k; a ResourceExhausted reply asks backoff.Retry for another attempt (the retry sentinel is proved retryable on the package initializer) and is never handed back while the context lives, any other failure is returned; a submitter submits exactly the batch it received and takes the next one only after this one was accepted; the fetcher's callback forwards batches unchanged; fetchTail fetches nothing when the source has nothing new and starts the fetch only after verifyConsistency returned nil, which for a non-empty destination root happens only when the source's consistency proof between the destination size/root and the just-fetched STH verifies (unless the operator switched the check off); getRoot and NewPreorderedLogClient bind size, root and tree to the backend's reply and the configured tree. Together with C16 (ranges and batches tile the source range) this gives index-for-index equality of destination and source.",
+    COMMON_TRUST + " Not decided here: goroutine interleavings of fetchers and submitters, restarts and mastership changes (whole-history clauses), termination, and the Trillian backend's own idempotence for re-submitted leaves; proof.VerifyConsistency, backoff.Retry and the gRPC stubs are assumed as documented (Retry: returns f's error unless it is retryable); start indices configured beyond the destination size are the operator's choice and are not excluded.",
+)
+
 NOT_YET = "contracts for this property are not yet discharged by the generator in this revision; no other technique is substituted"
 NOT_APPLICABLE = {}
 
